@@ -258,7 +258,8 @@ def run_case(case, ctx):
         if is_ok(r.out):
             ctx.violation("bad-validation-accepted", f"{run.describe(r)}")
         _check_stream(ctx, r, "a rejected store_object")
-    r = run.step({"op": "store", "pid": pid, "c": 0, "kind": kind, "offset": offset})
+    # (given by path: the caller's file is a private copy that the caller REWRITES IN PLACE right after the call)
+    r = run.step({"op": "store", "pid": pid, "c": 0, "kind": kind, "offset": offset, "clobber_source": True})
     if not is_ok(r.out):
         ctx.violation("store-failed", f"store_object({kind}, {len(data)} bytes, offset {offset}) "
                       f"raised {r.out[1]}: {r.out[2]}", {"kind_arg": kind, "err": r.out[1]})
